@@ -8,6 +8,7 @@ import (
 	"flag"
 	"fmt"
 	"os"
+	"strings"
 	"sync"
 
 	"gitlab.com/gomidi/midi/v2"
@@ -28,19 +29,32 @@ type tdrv struct {
 	// open and hands out a send function) instead of out.Open / out.Send -- the same calls as far as the property goes
 	via    string
 	sendFn func(midi.Message) error
+	sysex  bool
 }
 
 const viaSendTo = "via=sendto"
+
+// msgs=sysex: message n travels as the system exclusive message F0 n F7 and the listener asks for sysex (UseSysEx) --
+// the same history as far as the property goes, through the decoder's sysex path
+const msgsSysex = "msgs=sysex"
 
 func newT(note string) *tdrv {
 	d := testdrv.New("verifports")
 	ins, _ := d.Ins()
 	outs, _ := d.Outs()
 	t := &tdrv{in: ins[0], out: outs[0]}
-	if note == viaSendTo {
+	if strings.Contains(note, viaSendTo) {
 		t.via = "sendto"
 	}
+	t.sysex = strings.Contains(note, msgsSysex)
 	return t
+}
+
+func (t *tdrv) wire(m int) []byte {
+	if t.sysex {
+		return []byte{0xF0, byte(m), 0xF7}
+	}
+	return pr.MsgBytes(m)
 }
 
 func errStr(err error) string {
@@ -73,9 +87,17 @@ func (t *tdrv) Call(fn string, m int, o pr.Opts) string {
 	case "Listen":
 		t.nL++
 		id := t.nL
+		var opts []midi.Option
+		if t.sysex {
+			opts = append(opts, midi.UseSysEx())
+		}
 		stop, err := midi.ListenTo(t.in, func(msg midi.Message, ts int32) {
-			t.got = append(t.got, pr.Dlv{L: id, M: pr.MsgID(msg)})
-		})
+			mid := pr.MsgID(msg)
+			if t.sysex && len(msg) == 3 && msg[0] == 0xF0 && msg[2] == 0xF7 {
+				mid = int(msg[1])
+			}
+			t.got = append(t.got, pr.Dlv{L: id, M: mid})
+		}, opts...)
 		if err == nil {
 			t.stop = stop
 		}
@@ -87,9 +109,9 @@ func (t *tdrv) Call(fn string, m int, o pr.Opts) string {
 		return "nil"
 	case "Send":
 		if t.sendFn != nil {
-			return errStr(t.sendFn(midi.Message(pr.MsgBytes(m))))
+			return errStr(t.sendFn(midi.Message(t.wire(m))))
 		}
-		return errStr(t.out.Send(pr.MsgBytes(m)))
+		return errStr(t.out.Send(t.wire(m)))
 	}
 	hx.Die("unknown call", fn)
 	return ""
@@ -186,6 +208,9 @@ func cmdWalk(args []string) {
 		}
 		if sum%2 == 1 { // every other history drives the out port through midi.SendTo
 			h.Note = viaSendTo
+		}
+		if (sum/2)%2 == 1 { // ... and every other one sends its messages as sysex to a listener that asks for sysex
+			h.Note += ";" + msgsSysex
 		}
 		t := newT(h.Note)
 		okp := pr.Run(t, &h)
